@@ -8,6 +8,7 @@ import (
 	"os"
 	"runtime/debug"
 	"strings"
+	"sync"
 	"time"
 
 	"elkverif/hx"
@@ -32,6 +33,8 @@ type RunReq struct {
 	Src       string `json:"src"`
 	Mode      string `json:"mode"`       // "run" (default) | "check" | "dis"
 	TimeoutMs int    `json:"timeout_ms"` // default 5000
+	Pool      int    `json:"pool"`       // thread-pool size for async tasks (default 4)
+	Queue     int    `json:"queue"`      // task-queue capacity (default 256)
 	Name      string `json:"name"`       // source name, default /tmp/<id>.elk
 }
 
@@ -65,9 +68,30 @@ type RunAns struct {
 	Ms       int64   `json:"ms"`
 }
 
+// lockedBuffer: pool threads and the main thread of one program share the captured stdout
+type lockedBuffer struct {
+	mu sync.Mutex
+	b  bytes.Buffer
+}
+
+func (l *lockedBuffer) Write(p []byte) (int, error) {
+	l.mu.Lock()
+	defer l.mu.Unlock()
+	return l.b.Write(p)
+}
+
+func (l *lockedBuffer) String() string {
+	l.mu.Lock()
+	defer l.mu.Unlock()
+	return l.b.String()
+}
+
 func runWorker(args []string) int {
 	in := bufio.NewReaderSize(os.Stdin, 1<<22)
 	out := bufio.NewWriter(os.Stdout)
+	// anything the runtime prints on its own (default-pool threads, debug output) must not
+	// corrupt the answer stream
+	os.Stdout = os.Stderr
 	for {
 		line, err := in.ReadString('\n')
 		if len(strings.TrimSpace(line)) > 0 {
@@ -105,7 +129,7 @@ func runOne(req *RunReq) (ans *RunAns, mustExit bool) {
 	}
 	start := time.Now()
 	done := make(chan struct{})
-	var stdout bytes.Buffer
+	var stdout lockedBuffer
 	go func() {
 		defer close(done)
 		stage := "check"
@@ -142,7 +166,16 @@ func runOne(req *RunReq) (ans *RunAns, mustExit bool) {
 			return
 		}
 		stage = "run"
-		v := vm.New(vm.WithStdout(&stdout))
+		pool, queue := req.Pool, req.Queue
+		if pool <= 0 {
+			pool = 4
+		}
+		if queue <= 0 {
+			queue = 256
+		}
+		tp := vm.NewThreadPool(pool, queue, vm.WithStdout(&stdout))
+		defer close(tp.TaskQueue)
+		v := vm.New(vm.WithStdout(&stdout), vm.WithThreadPool(tp))
 		res, elkErr := v.InterpretTopLevel(fn)
 		if !elkErr.IsUndefined() {
 			ans.Outcome = "error"
@@ -185,11 +218,11 @@ func firstFrames(stack []byte) string {
 	for _, l := range strings.Split(string(stack), "\n") {
 		if strings.HasPrefix(l, "github.com/elk-language/elk/") {
 			l = strings.TrimPrefix(l, "github.com/elk-language/elk/")
-			if i := strings.Index(l, "("); i > 0 {
+			if i := strings.LastIndex(l, "("); i > 0 {
 				l = l[:i]
 			}
 			keep = append(keep, l)
-			if len(keep) == 3 {
+			if len(keep) == 5 {
 				break
 			}
 		}
